@@ -48,7 +48,7 @@ FUNCTIONS = ['OperatorDict.__getitem__/__call__/_call_binary (func vs numspace[f
              'Algebra.register', 'TapeRecorder.binary_operator/unary_operator', 'MultiVector.map/filter/grade/__call__/_callable/issymbolic/free_symbols (cached properties)']
 ASSUMPTIONS = ['operand values symbolic; histories/patterns/routes enumerated; thread schedules enumerated under a preemption bound (context-bounded, CHESS style) with preemption at line boundaries of the watched functions',
                ]
-BOUNDS = {'quick': 'perm-histories: 14 binary + 8 unary operators x key sets of <=3 blades in all orderings (d=2), samples in d=3 and d=5,6 (two-digit keys), routes plain / wrapper (wraps, closure) / register / register(symbolic) / re-entrant wrapper; name classes over an ambiguous-spelling key pool (d=5); swapped-operand histories incl. d=7; operator sweeps (29 operators, two passes); flaky wrapper; 120 mixed histories of length <=3; 90 multivector-object histories; 14 two-thread scenarios x all schedules with <=1 preemption (about 110-400 schedules each, budget 400)',
+BOUNDS = {'quick': 'perm-histories: 14 binary + 8 unary operators x key sets of <=3 blades in all orderings (d=2), samples in d=3 and d=5,6 (two-digit keys), routes plain / wrapper (wraps, closure) / register / register(symbolic) / re-entrant wrapper; name classes over an ambiguous-spelling key pool (d=5); swapped-operand histories incl. d=7; operator sweeps (29 operators, two passes); flaky wrapper; 120 mixed histories of length <=3; 90 multivector-object histories; 14 two-thread scenarios x all schedules with <=1 preemption (about 110-400 schedules each, budget 400); blade-spelling lookup sequences (getattr / blades[...] / keyword construction, grades 2-4, d=3,4)',
           'thorough': 'the same families with 5-10x the samples; 8000 mixed histories of length <=5; 1200 object histories; 24 two-thread scenarios x all schedules with <=2 preemptions (budget 6000 schedules each)'}
 OUTSIDE = ['thread schedules with more than 2 preemptions (1 in the quick tier), more than two threads, preemption inside a source line or inside functions other than the cache / generation drivers', 'histories longer than the bound']
 LABEL_MOVEMENT = True
@@ -219,6 +219,18 @@ def cases(tier, seed):
                         ka=rng.sample(range(2 ** d), rng.choice((1, 2, 2, 3))),
                         pre=[rng.choice(OBJ_PRE) for _ in range(rng.randint(1, 3))], derive=rng.choice(sorted(OBJ_DERIVE)),
                         post=[rng.choice(OBJ_POST) for _ in range(rng.randint(1, 2))], numeric=bool(rng.random() < 0.3)))
+    # 12. blade SPELLINGS looked up in sequence (x.e321, alg.blades['e213'], e312=... construction): the sign of one spelling
+    #     must not depend on which other spelling of the same blade was resolved before (seed C09m)
+    for i in range(24 if tier == 'quick' else 300):
+        cfg = rng.choice([dict(p=3), dict(p=2, q=1), dict(p=1, q=2), dict(p=4), dict(p=3, q=1), dict(p=2, q=2)])   # (generators numbered from 1)
+        d = sum(cfg.values())
+        blade = rng.sample(range(1, d + 1), rng.choice((3, 3, min(4, d), 2)))
+        perms = [list(q) for q in itertools.permutations(blade)]
+        seq = [rng.choice(perms) for _ in range(rng.randint(2, 5))]
+        if i % 2 == 0 and len(blade) >= 3:          # directed: an odd spelling first, then an even one
+            srt = sorted(blade)
+            seq = [[srt[1], srt[0]] + srt[2:], srt[1:] + srt[:1] if len(srt) == 3 else [srt[1], srt[0], srt[3], srt[2]]] + seq[:2]
+        out.append(dict(kind='spelling-history', cfg=cfg, seq=seq, how=[rng.choice(('getattr', 'blades', 'kwargs')) for _ in seq]))
     return out
 
 
@@ -291,7 +303,40 @@ def run_case(desc, V):
         return _run_fresh_names(desc)
     if desc['kind'] == 'thread-schedules':
         return _run_threads(desc, V)
+    if desc['kind'] == 'spelling-history':
+        return _run_spelling(desc, V)
     return _run_mixed(desc, V)
+
+
+def _run_spelling(desc, V):
+    """Each lookup of a (possibly non-canonical) blade spelling on a USED algebra equals the same lookup on a fresh algebra and
+    the sign of the permutation that sorts the spelling times the stored coefficient."""
+    def parity(sp):
+        inv = sum(1 for i in range(len(sp)) for j in range(i + 1, len(sp)) if sp[i] > sp[j])
+        return -1 if inv % 2 else 1
+
+    def look(alg, x, sp, how):
+        nm = 'e' + ''.join(str(g) for g in sp)
+        if how == 'getattr':
+            return getattr(x, nm)
+        if how == 'blades':
+            b = alg.blades[nm]
+            return list(b.values())[0]
+        m = alg.multivector(**{nm: 1})
+        return list(m.values())[0]
+
+    used = make_alg(desc['cfg'])
+    out = []
+    for step, (sp, how) in enumerate(zip(desc['seq'], desc['how'])):
+        key = sum(1 << (g - 1) for g in sp)
+        res = []
+        for alg in (used, make_alg(desc['cfg'])):
+            x = mv(alg, V, 'x', [0, key, 1])
+            res.append(look(alg, x, sp, how))
+        want = parity(sp) * (V.var(f'x_{key}') if how == 'getattr' else 1)
+        out.append(Eq(f'spelling[{step}]:{how}:used=fresh', res[0], res[1], fkey=f'spelling|{how}|history'))
+        out.append(Eq(f'spelling[{step}]:{how}:sign', res[0], want, fkey=f'spelling|{how}|sign'))
+    return out
 
 
 def _run_names(desc, V):
